@@ -25,15 +25,41 @@ def log(*a):
 
 
 def sh(cmd, cwd=None, timeout=None, env=None, stdin=None):
-    """Run, return (rc, stdout, stderr); rc 124 on timeout."""
+    """Run, return (rc, stdout, stderr); rc 124 on timeout.
+    The child gets its own session and writes to temporary files (not pipes): a harness that leaves
+    orphaned grandchildren behind (a child process that never sees end-of-file, say) can then neither
+    keep our read blocked nor survive the run - the whole process group is killed afterwards."""
+    import tempfile, signal
+    fo = tempfile.TemporaryFile()
+    fe = tempfile.TemporaryFile()
+    fi = None
+    if stdin is not None:
+        fi = tempfile.TemporaryFile()
+        fi.write(stdin)
+        fi.seek(0)
+    p = subprocess.Popen(cmd, cwd=cwd, env=env, stdin=fi if fi is not None else subprocess.DEVNULL,
+                         stdout=fo, stderr=fe, start_new_session=True)
     try:
-        p = subprocess.run(cmd, cwd=cwd, timeout=timeout, env=env, input=stdin,
-                           stdout=subprocess.PIPE, stderr=subprocess.PIPE)
-        return p.returncode, p.stdout.decode('utf-8', 'replace'), p.stderr.decode('utf-8', 'replace')
-    except subprocess.TimeoutExpired as e:
-        out = (e.stdout or b'').decode('utf-8', 'replace')
-        err = (e.stderr or b'').decode('utf-8', 'replace')
-        return 124, out, err
+        rc = p.wait(timeout=timeout)
+    except subprocess.TimeoutExpired:
+        rc = 124
+    finally:
+        try:
+            os.killpg(p.pid, signal.SIGKILL)
+        except (ProcessLookupError, PermissionError):
+            pass
+        try:
+            p.wait(timeout=10)
+        except Exception:
+            pass
+    fo.seek(0)
+    fe.seek(0)
+    out = fo.read().decode('utf-8', 'replace')
+    err = fe.read().decode('utf-8', 'replace')
+    for f in (fo, fe, fi):
+        if f is not None:
+            f.close()
+    return rc, out, err
 
 
 # ------------------------------------------------------------------------------------------
